@@ -26,7 +26,7 @@ pub struct Parser<'a> {
 
 /// Deepest nesting of constructs the parser accepts. Recursive descent uses the native
 /// stack: without a limit, a few thousand nested parentheses overflow it and abort the process.
-const MAX_NESTING: usize = 512;
+const MAX_NESTING: usize = 1024;
 
 /// Native stack the parser allows itself, in bytes, measured from its first recursive step.
 /// Frame sizes differ by an order of magnitude between build profiles, so the depth limit
@@ -534,6 +534,10 @@ impl<'a> Parser<'a> {
     }
 
     fn parse_function_declaration_inner(&mut self) -> Result<FunctionDeclaration, JsError> {
+        self.nested(Self::parse_function_declaration_inner_unguarded)
+    }
+
+    fn parse_function_declaration_inner_unguarded(&mut self) -> Result<FunctionDeclaration, JsError> {
         let start = self.current.span;
 
         let generator = self.match_token(&TokenKind::Star);
@@ -1741,6 +1745,10 @@ impl<'a> Parser<'a> {
 
     /// Parse a member of an ambient namespace body
     fn parse_ambient_namespace_member(&mut self) -> Result<(), JsError> {
+        self.nested(Self::parse_ambient_namespace_member_unguarded)
+    }
+
+    fn parse_ambient_namespace_member_unguarded(&mut self) -> Result<(), JsError> {
         // Skip export if present
         self.match_token(&TokenKind::Export);
 
@@ -2251,6 +2259,10 @@ impl<'a> Parser<'a> {
 
     /// Pratt parser for binary expressions
     fn parse_binary_expression(&mut self, min_prec: u8) -> Result<Expression, JsError> {
+        self.nested(|parser| parser.parse_binary_expression_unguarded(min_prec))
+    }
+
+    fn parse_binary_expression_unguarded(&mut self, min_prec: u8) -> Result<Expression, JsError> {
         let start = self.current.span;
         let mut left = self.parse_unary_expression()?;
 
@@ -2693,6 +2705,10 @@ impl<'a> Parser<'a> {
     }
 
     fn parse_primary_expression(&mut self) -> Result<Expression, JsError> {
+        self.nested(Self::parse_primary_expression_unguarded)
+    }
+
+    fn parse_primary_expression_unguarded(&mut self) -> Result<Expression, JsError> {
         let start = self.current.span;
 
         match &self.current.kind {
@@ -3747,6 +3763,10 @@ impl<'a> Parser<'a> {
     }
 
     fn parse_primary_type(&mut self) -> Result<TypeAnnotation, JsError> {
+        self.nested(Self::parse_primary_type_unguarded)
+    }
+
+    fn parse_primary_type_unguarded(&mut self) -> Result<TypeAnnotation, JsError> {
         let start = self.current.span;
 
         match &self.current.kind {
